@@ -31,7 +31,7 @@ T = 1.0
 SPECS = {
     "udp": [("read", 35100, 4), ("read", 36000, 45), ("write", 47510, -5), ("read", 35200, 7), ("write_multi", 47547, bytes(range(12)))],
     "tcp": [("read", 35100, 4), ("read", 36000, 45), ("write", 47510, -5), ("read", 35200, 7), ("write_multi", 47547, bytes(range(12)))],
-    "aa55": [("aa55", "010600", "0186"), ("aa55", "010200", "0182"), ("aa55", "010900", "0189"), ("aa55", "011a03070104", "019a")],
+    "aa55": [("aa55", "010600", "0186"), ("aa55", "010200", "0182"), ("aa55", "010900", "0189"), ("aa55read", 0x701, 8)],
 }
 HDR = {"udp": 5, "tcp": 9, "aa55": 9}
 VERBATIM = {1: "ILLEGAL FUNCTION", 2: "ILLEGAL DATA ADDRESS", 3: "ILLEGAL DATA VALUE"}
@@ -47,7 +47,7 @@ def _op_key(transport, data):
 
 def _necessary(transport, spec, x):
     if transport == "aa55":
-        return rw.necessary_aa55(bytes.fromhex(spec[2]), x)
+        return rw.necessary_aa55(b"\x01\x9a" if spec[0] == "aa55read" else bytes.fromhex(spec[2]), x)
     kind, reg, arg = spec
     op = rw.op_read(0xF7, reg, arg) if kind == "read" else (rw.op_write(0xF7, reg, arg) if kind == "write" else rw.op_write_multi(0xF7, reg, arg))
     return rw.necessary_rtu(op, x) if transport == "udp" else rw.necessary_tcp(op, x)
@@ -164,7 +164,7 @@ def judge(o, invariants, prop):
         if a[0] == "answer" and a[1] < T - EPS and len(x["deliv"]) == 1:
             clean = (x["deliv"][0][0], x["deliv"][0][3])
         elif a[0] == "frag" and len(x["deliv"]) == 2 and a[2] <= a[3] < T - EPS \
-                and len(x["deliv"][0][3]) >= HDR[transport] and o.specs[c][0] in ("read", "aa55"):     # C07 speaks of split READ responses
+                and len(x["deliv"][0][3]) >= HDR[transport] and o.specs[c][0] in ("read", "aa55", "aa55read"):     # C07 speaks of split READ responses
             clean = (x["deliv"][1][0], x["deliv"][0][3] + x["deliv"][1][3])
         if clean is not None and "answered" in invariants and quiet(x, clean[0]) and _necessary(transport, o.specs[c], clean[1]) is None:
             kind, raw, msg, t0, t_end = outcome
@@ -290,7 +290,7 @@ def enum_job(job):
             for a1 in pal:
                 for starts in ((0, 0), (0, 1), (0, 5), (0, 12)):
                     for streak in ((0, 1) if api else (0,)):
-                        for pair in ((0, 1), (2, 0)) if transport != "aa55" else ((0, 1),):
+                        for pair in ((0, 1), (2, 0)) if transport != "aa55" else ((0, 1), (3, 0)):      # (3: the Aa55ReadCommand class)
                             case = {"overlap": True, "transport": transport, "keep": keep, "R": R, "api": api, "streak": streak,
                                     "callers": [{"spec": list(specs[pair[0]]), "start": starts[0]}, {"spec": list(specs[pair[1]]), "start": starts[1]}],
                                     "script": [a0, a1]}
